@@ -843,3 +843,82 @@ def spec_mangen(fns, consts):
 
 spec_mangen.crate = "clap_mangen"
 SPECS["C19"] = [spec_mangen]
+
+
+# ------------------------------------------------------------------ C08: an ambiguous prefix is never silently resolved
+
+def spec_unique_prefix(fns, consts):
+    """possible_subcommand / possible_long_flag_subcommand: a name found by PREFIX inference is returned
+    only when the candidate iterator yields nothing after it (a second `next()` is None), only with
+    inference enabled, and never when arguments conflict with subcommands and one was already seen.
+    parse_long_arg's `iter.next().filter(|_| iter.next().is_none())` closure is exactly that test."""
+    con = contracts.Contracts(fns, default_pure=True)
+    ctx = symex.Ctx(consts, con)
+    obs, enc = [], []
+
+    def shape(msg, pc=()):
+        obs.append({"fn": "parser.rs", "block": "shape", "kind": "spec", "target": "unique_prefix", "msg": msg, "pc": list(pc), "neg": "true"})
+    for fname, args in (("possible_subcommand", lambda: [("opq", "self"), ("opq", "arg"), ("bool", ctx.sym("valid_arg_found", "Bool"))]),
+                        ("possible_long_flag_subcommand", lambda: [("opq", "self"), ("opq", "arg")])):
+        fn = _find(fns, "parser/parser.rs", fname)
+        ex = symex.Exec(ctx, fn, args()).run(cut_loops=True)
+        n_inf = 0
+        for pc, val in ex.returns:
+            key = val[1] if val[0] == "opq" else ""
+            if "as Iterator>::next(" in key:
+                n_inf += 1
+                if "#call" in key:
+                    shape(f"{fname}: a candidate other than the first one is returned", pc)
+                    continue
+                second = [ctx.keys[k] for k in ctx.keys if k.startswith("is_some(") and "as Iterator>::next(" in k and "#call1)" in k and re.search(r"\{closure@[^}]*\}", key).group(0) in k]
+                infer = [ctx.keys[k] for k in ctx.keys if re.search(r"Command::is_infer_subcommands_set\(", k)]
+                if len(second) != 1 or len(infer) != 1:
+                    shape(f"{fname}: second `next()` / inference switch not found on the inference path", pc)
+                    continue
+                obs.append({"fn": fn.name, "block": "ret", "kind": "spec", "target": "unique_prefix", "msg": f"{fname}: an inferred name is returned only if no second candidate exists",
+                            "pc": list(pc), "neg": second[0]})
+                obs.append({"fn": fn.name, "block": "ret", "kind": "spec", "target": "unique_prefix", "msg": f"{fname}: prefix inference only when it is enabled",
+                            "pc": list(pc), "neg": f"(not {infer[0]})"})
+                if fname == "possible_subcommand":
+                    acws = [ctx.keys[k] for k in ctx.keys if re.search(r"Command::is_args_conflicts_with_subcommands_set\(", k)]
+                    if len(acws) == 1:
+                        obs.append({"fn": fn.name, "block": "ret", "kind": "spec", "target": "unique_prefix", "msg": "no subcommand is recognised after an argument when arguments conflict with subcommands",
+                                    "pc": list(pc), "neg": f"(and {acws[0]} {ctx.keys['valid_arg_found']})"})
+        if n_inf == 0:
+            shape(f"{fname}: no return path yields an inferred candidate")
+        enc.append(_enc(fn, ex, len(ex.returns)))
+    # the long-argument variant: the filter closure
+    try:
+        c1 = _find(fns, "parser/parser.rs", "parse_long_arg::{closure#1}")
+        e1 = symex.Exec(ctx, c1, [("opq", "pla_env"), ("opq", "first_candidate")]).run()
+        nxt = [ctx.keys[k] for k in ctx.keys if k.startswith("is_some(") and "as Iterator>::next(" in k and "pla_env" in k]
+        if len(nxt) != 1:
+            raise Unsupported("closure does not take exactly one further candidate")
+        for pc, val in e1.returns:
+            obs.append({"fn": c1.name, "block": "ret", "kind": "spec", "target": "unique_prefix", "msg": "parse_long_arg: an inferred long option is kept <=> the candidate iterator has no further element",
+                        "pc": list(pc), "neg": f"(not (= {val[1]} (not {nxt[0]})))"})
+        enc.append(_enc(c1, e1, len(e1.returns)))
+    except Unsupported as e:
+        shape("parse_long_arg's uniqueness filter no longer has the reference shape: " + str(e)[:90])
+    # the candidate closure: an argument is a candidate through its long name OR any alias
+    try:
+        c0 = _find(fns, "parser/parser.rs", "parse_long_arg::{closure#0}")
+        e0 = symex.Exec(ctx, c0, [("opq", "cand_env"), ("opq", "cand_arg")]).run(cut_loops=True)
+        has_long = [ctx.keys[k] for k in ctx.keys if re.search(r"^is_some\(Arg::get_long\(cand_arg\)\)$", k)] + \
+                   [ctx.keys[k] for k in ctx.keys if re.search(r"^discr\(Arg::get_long\(cand_arg\)\)$", k)]
+        if not has_long:
+            raise Unsupported("candidate closure does not look at the primary long name")
+        for (pc, val), calls in zip(e0.returns, e0.return_calls):
+            looked = any(re.search(r"as Iterator>::find_map::<", c) for c in calls)
+            direct = val[0] == "enum" and val[1] == "Some"
+            obs.append({"fn": c0.name, "block": "ret", "kind": "spec", "target": "unique_prefix", "msg": "parse_long_arg: every argument is a candidate through its long name or, failing that, its aliases",
+                        "pc": list(pc), "neg": "false" if (looked or direct) else "true"})
+        enc.append(_enc(c0, e0, len(e0.returns)))
+    except Unsupported as e:
+        shape("parse_long_arg's candidate closure no longer has the reference shape: " + str(e)[:90])
+    for o in obs:
+        o.setdefault("target", "unique_prefix")
+    return ctx, obs, enc, con
+
+
+SPECS["C08"] = [spec_unique_prefix]
